@@ -45,7 +45,7 @@ theorem Steps.congr_noPP {c P s s2 t} (h : noPP s = noPP s2) (hs : Steps c P s t
     · rw [← ip_of_noPP h]; exact hlt
     · rw [← step_congr_noPP h]; exact hst
 
-def Reach (c : Cfg) (P : Prog) (s t : VM) : Prop := ∃ t', Steps c P s t' ∧ noPP t' = noPP t
+def Reach (c : Cfg) (P : LProg) (s t : VM) : Prop := ∃ t', Steps c P.prog s t' ∧ noPP t' = noPP t
 
 theorem Reach.refl {c P} (s : VM) : Reach c P s s := ⟨s, .refl _, rfl⟩
 
@@ -60,23 +60,27 @@ def obs (s : VM) : SState := ⟨s.memory, s.created, s.log⟩
 
 @[simp] theorem obs_vm (ip st scs σ lim) : obs (vm ip st scs σ lim) = σ := rfl
 
-def ReachErr (c : Cfg) (P : Prog) (s : VM) (e : ErrClass) (σ : SState) : Prop :=
-  ∃ s1 s2, Steps c P s s1 ∧ s1.ip < P.code.size ∧ step c P s1 = .error (e, s2) ∧ obs s2 = σ
+/-- a failing step is reached; it is the step of an instruction of the program's list (at `s1.ip`), and the
+    program's blame relation holds of the failure class and that instruction's location -/
+def ReachErr (c : Cfg) (P : LProg) (s : VM) (e : ErrClass) (σ : SState) : Prop :=
+  ∃ s1 s2, Steps c P.prog s s1 ∧ s1.ip < P.prog.code.size ∧ step c P.prog s1 = .error (e, s2) ∧ obs s2 = σ ∧
+    ∃ i r, CodeAt P s1.ip (i :: r) ∧ P.blame e i.loc
 
 theorem Reach.trans_err {c P a b e σ} (h1 : Reach c P a b) (h2 : ReachErr c P b e σ) : ReachErr c P a e σ := by
   obtain ⟨b', hab, hb⟩ := h1
-  obtain ⟨s1, s2, hs, hlt, hst, ho⟩ := h2
+  obtain ⟨s1, s2, hs, hlt, hst, ho, i, r, hat, hbl⟩ := h2
   obtain ⟨s1', hs', h1'⟩ := hs.congr_noPP hb.symm
-  refine ⟨s1', s2, hab.trans hs', ?_, ?_, ho⟩
+  refine ⟨s1', s2, hab.trans hs', ?_, ?_, ho, i, r, ?_, hbl⟩
   · rw [ip_of_noPP h1']; exact hlt
   · rw [step_congr_noPP h1']; exact hst
+  · rw [ip_of_noPP h1']; exact hat
 
 /-- what a run is expected to end in -/
 inductive Res where
   | ok (t : VM)
   | err (e : ErrClass) (σ : SState)
 
-def Runs (c : Cfg) (P : Prog) (s : VM) : Res → Prop
+def Runs (c : Cfg) (P : LProg) (s : VM) : Res → Prop
   | .ok t => Reach c P s t
   | .err e σ => ReachErr c P s e σ
 
@@ -101,21 +105,21 @@ theorem Runs.congr_noPP {c P s s2 Q} (hr : Runs c P s Q) (h : noPP s = noPP s2) 
   Reach.runs ⟨s2, .refl _, h.symm⟩ hr
 
 /-- what the result of executing one instruction has to satisfy for the run to end in `Q` -/
-def ExecPost (c : Cfg) (P : Prog) (x : RV VM) (Q : Res) : Prop :=
+def ExecPost (c : Cfg) (P : LProg) (l : Loc) (x : RV VM) (Q : Res) : Prop :=
   match x with
   | .ok s' => Runs c P s' Q
-  | .error (e, s2) => Q = .err e (obs s2)
+  | .error (e, s2) => Q = .err e (obs s2) ∧ P.blame e l
 
-theorem ExecPost.ok {c P s s' Q} (hr : Runs c P s Q) (h : noPP s = noPP s') : ExecPost c P (.ok s') Q :=
+theorem ExecPost.ok {c P l s s' Q} (hr : Runs c P s Q) (h : noPP s = noPP s') : ExecPost c P l (.ok s') Q :=
   hr.congr_noPP h
 
 /-- the driver: execute the instruction at the head of a located segment -/
-theorem Runs.exec {c : Cfg} {P : Prog} {k : Nat} {i : LInstr} {r : List LInstr} {Q : Res}
+theorem Runs.exec {c : Cfg} {P : LProg} {k : Nat} {i : LInstr} {r : List LInstr} {Q : Res}
     (h : CodeAt P k (i :: r)) {s : VM} (hs : s.ip = k)
-    (hx : ExecPost c P (execI c P.consts i.instr { s with pp := k, ip := k + 1 }) Q) : Runs c P s Q := by
+    (hx : ExecPost c P i.loc (execI c P.consts i.instr { s with pp := k, ip := k + 1 }) Q) : Runs c P s Q := by
   have hb := h.bytes
   have hst := step_at (c := c) hb s hs
-  have hlt : s.ip < P.code.size := by rw [hs]; exact hb.lt
+  have hlt : s.ip < P.prog.code.size := by rw [hs]; exact hb.lt
   unfold ExecPost at hx
   cases hex : execI c P.consts i.instr { s with pp := k, ip := k + 1 } with
   | ok s' =>
@@ -125,8 +129,9 @@ theorem Runs.exec {c : Cfg} {P : Prog} {k : Nat} {i : LInstr} {r : List LInstr} 
     obtain ⟨e, s2⟩ := es
     rw [hex] at hx hst
     simp only at hx
+    obtain ⟨hx, hbl⟩ := hx
     subst hx
-    exact ⟨s, s2, .refl _, hlt, hst, rfl⟩
+    exact ⟨s, s2, .refl _, hlt, hst, rfl, i, r, hs ▸ h, hbl⟩
 
 /-! ### connecting `Steps` with the fuel-indexed dispatch loop -/
 
